@@ -130,7 +130,7 @@ Fixpoint replay (fuel : nat) (acts : list sx) (r : rs) (snaps : list sx) : rs * 
 
 (* ------------------------------------------------------------------------------------------------------------
    kinds 6/7: AsyncTLSStreamTransport.send_all under concurrent senders (Conc.TlsSend); same script language; a task
-   program is a list of plaintexts.  output = L [L snapshots; L [B plaintext carried by each transport.send_all call]],
+   program is a list of packets, a packet the list of its chunks (one chunk: send_all, else send_all_from_iterable).  output = L [L snapshots; L [B plaintext carried by each transport.send_all call]],
    snapshot = L [A number_of_transport_calls; L statuses] (status 2 = suspended in the underlying transport.send_all) *)
 From EN Require Import Conc.TlsSend.
 
@@ -229,7 +229,7 @@ Fixpoint x_replay (fuel : nat) (acts : list sx) (r : xs) (snaps : list sx) : xs 
   end.
 
 Definition run_tls (pr : sx) (acts : list sx) : sx :=
-  do progs <- as_list_of (as_list_of as_bytes) pr;
+  do progs <- as_list_of (as_list_of (as_list_of as_bytes)) pr;
   let n := length progs in
   let fuel := fold_right (fun p k => 3 * S (length p) + k) 8 progs in
   let r0 := mkXs (tls_init progs) [] (repeat false n) (repeat false n) (repeat None n) false in
@@ -255,17 +255,39 @@ Fixpoint insert_sorted (x : bytes) (l : list bytes) : list bytes :=
   end.
 Definition sort_bytes (l : list bytes) : list bytes := fold_right insert_sorted [] l.
 
-Fixpoint started_of (n : nat) (acts : list sx) : list bool :=
+(* script: L[A 0;A t] start thread t; L[A 6;A t] start thread t whose send_packet uses a short timeout (it fails with
+   TimeoutError iff the lock is held when it starts, i.e. iff some started thread still has a send call to make:
+   a thread inside send is parked until released); L[A 1;_] release whichever thread is parked inside socket.send.
+   pending = number of socket send calls the started threads still have to make. *)
+Definition gates_of (kind : Z) (prog : list packet) : nat :=
+  if Z.eqb kind 9 then length prog else fold_right (fun p n => length p + n) 0 prog.
+
+Fixpoint thr_replay (kind : Z) (progs : list (list packet)) (acts : list sx) (pending : nat) (st : list (option bool))
+  : list (option bool) :=
   match acts with
-  | [] => repeat false n
-  | L [A 0%Z; A t] :: r => upd (Z.to_nat t) true (started_of n r)
-  | _ :: r => started_of n r
+  | [] => st
+  | L [A 0%Z; A t] :: r =>
+      let t := Z.to_nat t in
+      match nth t st None with
+      | None => thr_replay kind progs r (pending + gates_of kind (nth t progs [])) (upd t (Some true) st)
+      | Some _ => thr_replay kind progs r pending st
+      end
+  | L [A 6%Z; A t] :: r =>
+      let t := Z.to_nat t in
+      match nth t st None with
+      | None => if 0 <? pending then thr_replay kind progs r pending (upd t (Some false) st)
+                else thr_replay kind progs r (pending + gates_of kind (nth t progs [])) (upd t (Some true) st)
+      | Some _ => thr_replay kind progs r pending st
+      end
+  | L [A 1%Z; _] :: r => thr_replay kind progs r (pred pending) st
+  | _ :: r => thr_replay kind progs r pending st
   end.
 
-Definition run_threads (progs : list (list packet)) (acts : list sx) : sx :=
-  let st0 := started_of (length progs) acts in
-  let pk := flat_map (fun x => if (fst x : bool) then map pkt_bytes (snd x) else []) (combine st0 progs) in
-  L [L (map B (sort_bytes pk)); L (map (fun b : bool => A (if b then 10 else 0)%Z) st0)].
+Definition run_threads (kind : Z) (progs : list (list packet)) (acts : list sx) : sx :=
+  let st := thr_replay kind progs acts 0 (repeat None (length progs)) in
+  let pk := flat_map (fun x => match fst x with Some true => map pkt_bytes (snd x) | _ => [] end) (combine st progs) in
+  L [L (map B (sort_bytes pk));
+     L (map (fun o : option bool => A (match o with Some true => 10 | Some false => 13 | None => 0 end)%Z) st)].
 
 Definition as_packet (x : sx) : option packet := as_list_of as_bytes x.
 Definition as_prog (x : sx) : option (list packet) := as_list_of as_packet x.
@@ -275,8 +297,8 @@ Definition prog_size (pr : list packet) : nat := fold_right (fun p n => S (S (le
 Definition run (i : sx) : sx :=
   match i with
   | L (A 6%Z :: pr :: L acts :: _) | L (A 7%Z :: pr :: L acts :: _) => run_tls pr acts
-  | L (A 8%Z :: pr :: L acts :: _) | L (A 9%Z :: pr :: L acts :: _) =>
-      do progs <- as_list_of as_prog pr; run_threads progs acts
+  | L (A 8%Z :: pr :: L acts :: _) => do progs <- as_list_of as_prog pr; run_threads 8 progs acts
+  | L (A 9%Z :: pr :: L acts :: _) => do progs <- as_list_of as_prog pr; run_threads 9 progs acts
   | L (A kind :: pr :: L acts :: _) =>
       do progs <- as_list_of as_prog pr;
       let n := length progs in
